@@ -337,6 +337,15 @@ def tsukamoto(spec: dict, y: float) -> float:
 # ------------------------------------------------------------------------------------------------
 # Norms and hedges in floats (for the reference interpreter; exact versions live in checks/c04, c05)
 # ------------------------------------------------------------------------------------------------
+def _div(a: float, b: float) -> float:
+    """IEEE division (numpy semantics): x/0 = +-inf, 0/0 = nan."""
+    if b == 0.0:
+        if a == 0.0 or math.isnan(a):
+            return NAN
+        return math.copysign(INF, a) * math.copysign(1.0, b)
+    return a / b
+
+
 def norm(name: str, a: float, b: float) -> float:
     if name == "AlgebraicProduct":
         return a * b
@@ -345,9 +354,9 @@ def norm(name: str, a: float, b: float) -> float:
     if name == "DrasticProduct":
         return min(a, b) if max(a, b) == 1.0 else 0.0
     if name == "EinsteinProduct":
-        return (a * b) / (2.0 - (a + b - a * b))
+        return _div(a * b, 2.0 - (a + b - a * b))
     if name == "HamacherProduct":
-        return (a * b) / (a + b - a * b) if a + b != 0.0 else 0.0
+        return _div(a * b, a + b - a * b) if a + b != 0.0 else 0.0
     if name == "Minimum":
         return min(a, b)
     if name == "NilpotentMinimum":
@@ -359,9 +368,9 @@ def norm(name: str, a: float, b: float) -> float:
     if name == "DrasticSum":
         return max(a, b) if min(a, b) == 0.0 else 1.0
     if name == "EinsteinSum":
-        return (a + b) / (1.0 + a * b)
+        return _div(a + b, 1.0 + a * b)
     if name == "HamacherSum":
-        return (a + b - 2.0 * a * b) / (1.0 - a * b) if a * b != 1.0 else 1.0
+        return _div(a + b - 2.0 * a * b, 1.0 - a * b) if a * b != 1.0 else 1.0
     if name == "Maximum":
         return max(a, b)
     if name == "NilpotentMaximum":
@@ -384,7 +393,12 @@ def norm_margin(name: str, a: float, b: float) -> float:
     return INF
 
 
+def _sqrt(v: float) -> float:
+    return math.sqrt(v) if v >= 0.0 else NAN
+
+
 def hedge(name: str, x: float) -> float:
+    """Documented hedge formulas with IEEE semantics outside [0,1] (degrees aggregated with UnboundedSum may exceed 1)."""
     if name == "any":
         return 1.0
     if name == "extremely":
@@ -392,9 +406,9 @@ def hedge(name: str, x: float) -> float:
     if name == "not":
         return 1.0 - x
     if name == "seldom":
-        return math.sqrt(x / 2.0) if x <= 0.5 else 1.0 - math.sqrt((1.0 - x) / 2.0)
+        return _sqrt(x / 2.0) if x <= 0.5 else 1.0 - _sqrt((1.0 - x) / 2.0)
     if name == "somewhat":
-        return math.sqrt(x)
+        return _sqrt(x)
     if name == "very":
         return x * x
     raise KeyError(name)
